@@ -1635,7 +1635,7 @@ func main() {
 	nSeq, nConc, nLin, linPer, nRate := 130, 24, 20, 60, 24
 	if *tier == "thorough" {
 		nSeq, nConc, nLin, linPer, nRate = 4400, 600, 400, 100, 500
-		minBudget = 300
+		minBudget = 80
 	}
 	type job struct {
 		id string
